@@ -23,9 +23,10 @@ Fits(e, f) == (e = "XMLWriter.write_file" => f = "XML") /\ (e = "RDFWriter.write
 \* 3: different branches at depth >= 2, as a keep_id clone appended elsewhere produces)
 Cases == {[validity |-> v, fault |-> ft, fmt |-> f, file |-> fs, entry |-> e, opt |-> o, wmode |-> w, variant |-> n] :
              v \in Validity, ft \in Faults, f \in Formats, fs \in FileStates, e \in Entries,
-             o \in {"plain", "local_style", "custom_template"}, w \in {"default", "error"}, n \in 1..3}
+             o \in {"plain", "local_style", "custom_template", "template_tuple"}, w \in {"default", "error"}, n \in 1..4}
 Valid(c) == Fits(c.entry, c.fmt) /\ (c.opt # "plain" => c.fmt = "XML") /\ (c.wmode = "error" => c.validity = "warnings" /\ c.entry \in Validating)
             /\ (c.variant > 1 => c.validity \in ErrorsV /\ c.fault = "none" /\ c.opt = "plain")
+            /\ (c.variant = 4 => c.validity = "dup-ids")          \* 4: a Section carries the id of its own Document
 
 \* REFERENCE: does the serialisation itself fail for this case?
 SerialisationFails(c) == \/ c.fmt = "RDF:bogus"
@@ -49,5 +50,5 @@ WarningsOnlyIsSaved(o) == (o.c.validity = "warnings" /\ ~SerialisationFails(o.c)
 \* (whether a document carrying a planted fault, or an invalid one written by a lower-level writer,
 \* loads again is not part of C07)
 SavedIsLoadable(o) == o.out = "saved" => (o.after = "new" /\ ((o.c.fault = "none" /\ o.c.validity \notin ErrorsV) => o.loads))
-Conforms(o) == o.c.fault = "text-file-cannot-encode" \/ ((RefOutcome(o.c) = "saved") <=> (o.out = "saved"))
+Conforms(o) == o.c.fault = "text-file-cannot-encode" \/ o.c.opt = "template_tuple" \/ ((RefOutcome(o.c) = "saved") <=> (o.out = "saved"))
 ====
